@@ -19,6 +19,8 @@ pub struct Ctl {
     /// description of the call that was failed first
     pub fired_what: Mutex<Option<String>>,
     pub failures: AtomicU64,
+    /// fail the n-th write/append whose file name contains the substring: (substring, countdown, sticky)
+    pub write_filter: Mutex<Option<(String, i64, bool)>>,
     /// called for every numbered call with its kind (used by C17 to watch who writes when)
     pub observer: Mutex<Option<Arc<dyn Fn(&'static str) + Send + Sync>>>,
 }
@@ -35,6 +37,7 @@ impl Ctl {
             fired_what: Mutex::new(None),
             failures: AtomicU64::new(0),
             observer: Mutex::new(None),
+            write_filter: Mutex::new(None),
         })
     }
 
@@ -58,6 +61,28 @@ impl Ctl {
         if self.log_kinds.load(Ordering::Relaxed) {
             self.kinds.lock().unwrap().push(kind);
         }
+        if matches!(kind, "write" | "append") && self.write_filter.lock().unwrap().is_some() {
+            let name = what();
+            let mut wf = self.write_filter.lock().unwrap();
+            if let Some((sub, left, sticky)) = wf.as_mut() {
+                if name.contains(sub.as_str()) {
+                    *left -= 1;
+                    if *left == 0 || (*sticky && *left < 0) {
+                        self.failures.fetch_add(1, Ordering::SeqCst);
+                        if !self.fired.swap(true, Ordering::SeqCst) {
+                            *self.fired_what.lock().unwrap() = Some(format!("{kind} {name}"));
+                        }
+                        return Err(io::Error::new(io::ErrorKind::Other, "injected I/O failure"));
+                    }
+                }
+            }
+            drop(wf);
+            return self.tick_numbered(n, kind, move || name);
+        }
+        self.tick_numbered(n, kind, what)
+    }
+
+    fn tick_numbered(&self, n: i64, kind: &'static str, what: impl FnOnce() -> String) -> io::Result<()> {
         let at = self.fail_at.load(Ordering::SeqCst);
         if at >= 0 {
             let hit = n == at || (self.sticky.load(Ordering::SeqCst) && n > at);
